@@ -65,3 +65,19 @@ Example C12_cmp_ast_prefix_example :
   cmp_ast (Lst [Atom (s2l "int") (s2l "1"); Atom (s2l "int") (s2l "2")]) (Lst [Atom (s2l "int") (s2l "1")]) = false
   /\ cmp_ast (Lst []) (Lst [Atom (s2l "int") (s2l "1")]) = false.
 Proof. split; vm_compute; reflexivity. Qed.
+
+(* ---- how sync finds its target in a listed file: find_in_ast [name] (Model/FindAst.v, a transcription compared with the code each
+   run).  For EVERY module in which no earlier top-level sibling is a function with a positional parameter called like the target
+   (nor an annotated assignment / class of that name -- which would BE the first definition of the name), the first top-level
+   definition of the name is found, at its position. *)
+From CDD Require Rewrite FindAst FindAstProofs.
+Theorem C12_target_lookup : forall n pre x post,
+  forallb (FindAstProofs.inert [n] [] n []) pre = true -> FindAst.node_loc [] x = Some [n] ->
+  FindAst.find_in_ast [n] (pre ++ x :: post) = FindAst.FNode [length pre].
+Proof. exact FindAstProofs.find_top. Qed.
+Print Assumptions C12_target_lookup.
+
+(* otherwise: an earlier function's parameter of that name is returned instead of the definition *)
+Theorem C12_target_lookup_refuted :
+  FindAst.find_in_ast [s2l "n"] [Rewrite.NFunc (s2l "g") [FindAstProofs.A "n"] [] [] 1; Rewrite.NClass (s2l "n") []] = FindAst.FArg [0%nat] 0.
+Proof. vm_compute. reflexivity. Qed.
